@@ -130,7 +130,7 @@ def run(tier, seed, build):
     invs = ["NestedLaw", "RayleighAboveClosedForm"]
     cfg = ("SPECIFICATION EmitSpec\nCONSTANTS\nNFun = 8\nDeviations = {}\nTier = \"%s\"\n%s\nCHECK_DEADLOCK FALSE\n"
            % (tier, "\n".join("INVARIANT " + i for i in invs)))
-    mc = run_tlc("c15-mc", "MC_Nested", cfg, workers=16, timeout=6000, heap="16g")
+    mc = run_tlc("c15-mc", "MC_Nested", cfg, workers=16, timeout=6000, heap="8g")
     rep.add_tlc("MC_Nested", mc)
     if not mc.ok:
         rep.machinery("TLC on MC_Nested failed: " + mc.errors())
